@@ -50,7 +50,9 @@ struct Hash {
 };
 
 // ---------------------------------------------------------------- heap seam
-enum HeapPolicy { HEAP_IMMEDIATE = 0, HEAP_QUARANTINE = 1 };
+enum HeapPolicy { HEAP_IMMEDIATE = 0, HEAP_QUARANTINE = 1,
+                  HEAP_SHARED_LIFO = 2 };     // a released block is handed to the next request of the same size at once, whichever thread makes it
+                                              // (what a central free list does; glibc's per-thread caches make that rare): engine B
 enum HeapViolation { HV_NONE = 0, HV_DOUBLE_FREE, HV_INVALID_FREE, HV_FORM_MISMATCH, HV_OVERRUN };
 
 struct BlockInfo { uint64_t id; size_t size; bool array; bool sut; uint32_t run_epoch; };
